@@ -172,15 +172,15 @@ func (g *generator) buildMethod(genMethod *generatedMethod, context map[string]*
 		case method.ArgUseContext:
 			name := ctx.Name("context")
 			ctx.Context[arg.Type.String] = xtype.VariableID(jen.Id(name))
-			args = append(args, jen.Id(name).Add(arg.Type.TypeAsJen()))
+			args = append(args, paramDecl(name, arg))
 		case method.ArgUseSource:
 			name := ctx.Name("source")
 			sourceID = xtype.VariableID(jen.Id(name))
-			args = append(args, jen.Id(name).Add(arg.Type.TypeAsJen()))
+			args = append(args, paramDecl(name, arg))
 		case method.ArgUseTarget:
 			name := ctx.Name("target")
 			targetAssign = jen.Id(name)
-			args = append(args, jen.Id(name).Add(arg.Type.TypeAsJen()))
+			args = append(args, paramDecl(name, arg))
 		case method.ArgUseMultiSource:
 			panic("multi source aren't supported right now. https://github.com/jmattheis/goverter/issues/143")
 		}
@@ -239,6 +239,24 @@ and therefore these field related settings would be ignored:
 	genMethod.Jen = jen.Params(args...).Params(returns...).Block(funcBlock...)
 
 	return nil
+}
+
+// paramDecl declares a parameter of a generated method, the final parameter
+// of a variadic method is declared as ...T again.
+func paramDecl(name string, arg method.Arg) *jen.Statement {
+	if arg.Variadic {
+		return jen.Id(name).Op("...").Add(arg.Type.ListInner.TypeAsJen())
+	}
+	return jen.Id(name).Add(arg.Type.TypeAsJen())
+}
+
+// paramValue passes a value to a parameter, a slice is spread into the final
+// parameter of a variadic function.
+func paramValue(arg method.Arg, value jen.Code) jen.Code {
+	if arg.Variadic {
+		return jen.Add(value).Op("...")
+	}
+	return value
 }
 
 func (g *generator) buildNoLookup(ctx *builder.MethodContext, sourceID *xtype.JenID, source, target *xtype.Type, errPath builder.ErrorPath) ([]jen.Code, *xtype.JenID, *builder.Error) {
@@ -312,14 +330,14 @@ func (g *generator) CallMethod(
 				return nil, nil, formatErr("Could not satisfy all required context parameters:\n" + strings.Join(method.AvailableContextDebug(definition.Context, ctx.AvailableContext), "\n"))
 			}
 			if id, ok := ctx.Context[arg.Type.String]; ok {
-				params = append(params, id.Code.Clone())
+				params = append(params, paramValue(arg, id.Code.Clone()))
 			}
 		case method.ArgUseSource:
 			if !source.AssignableTo(definition.Source) && !definition.TypeParams {
 				cause := fmt.Sprintf("Method source type mismatches with conversion source: %s != %s", definition.Source.String, source.String)
 				return nil, nil, formatErr(cause)
 			}
-			params = append(params, sourceID.Code)
+			params = append(params, paramValue(arg, sourceID.Code))
 		case method.ArgUseMultiSource:
 			panic("multi source aren't supported right now. https://github.com/jmattheis/goverter/issues/143")
 		case method.ArgUseTarget:
@@ -417,9 +435,9 @@ func (g *generator) delegateMethod(
 		case method.ArgUseInterface:
 			params = append(params, jen.Id(xtype.ThisVar))
 		case method.ArgUseContext:
-			params = append(params, ctx.Context[arg.Type.String].Code.Clone())
+			params = append(params, paramValue(arg, ctx.Context[arg.Type.String].Code.Clone()))
 		case method.ArgUseSource:
-			params = append(params, sourceID.Code)
+			params = append(params, paramValue(arg, sourceID.Code))
 		case method.ArgUseMultiSource:
 			panic("not supported atm")
 		case method.ArgUseTarget:
